@@ -325,6 +325,8 @@ def ts_stk(prog):
     if len(solver) != 1:
         errs.append("expected one SATSolver literal")
     else:
+        if "state_stack" not in (solver[0][5] or ()):
+            raise CheckerError("TS-STK: the solver literal has no `state_stack` field (fields: %s)" % (list(solver[0][5] or ()),))
         i = solver[0][5].index("state_stack")
         init = strip(solver[0][4][i])
         pushes = [cs for cs in te.calls if cs.callee.name == "push" and
